@@ -98,7 +98,10 @@ func ValidateUnixEpochTimestamp(b []byte, now time.Time) error {
 	tsEpoch := int64(binary.BigEndian.Uint64(b))
 	nowEpoch := now.Unix()
 	diff := tsEpoch - nowEpoch
-	if diff < -MaxEpochDiff || diff > MaxEpochDiff {
+	// The timestamp has whole-second precision while now does not: diff == -MaxEpochDiff means the
+	// timestamp is already at least MaxTimeDiff old. Rejecting it keeps the span of instants at which
+	// one timestamp is accepted within ReplayWindowDuration, the time a salt stays in the salt pool.
+	if diff <= -MaxEpochDiff || diff > MaxEpochDiff {
 		return &HeaderError[int64]{ErrBadTimestamp, nowEpoch, tsEpoch}
 	}
 	return nil
